@@ -1818,6 +1818,31 @@ def option_and_then(ctx):
     return outs
 
 
+@contract(r'^(?:rand::)?thread_rng$|^rand::rngs::thread::thread_rng$')
+def rand_thread_rng(ctx):
+    return Opaque('ThreadRng', 'rng')
+
+
+@contract(r' as (?:rand::)?Rng>::gen_range::<(?:usize|u8|u16|u32|u64|i32|i64), (?:std::ops::)?Range(?:Inclusive)?<.*>>$')
+def rand_gen_range(ctx):
+    """rng.gen_range(lo..hi): randomness is the environment's -- any value in the range (an empty range panics), reported among
+    the inputs of a counterexample"""
+    from engine import INT_TYPES
+    ex, st = ctx.ex, ctx.st
+    r = ctx.args[1]
+    if not (isinstance(r, Agg) and last_seg(r.name) in ('Range', 'RangeInclusive') and isinstance(r.fields.get(0), Int)):
+        return NotImplemented
+    lo, hi = r.fields[0], r.fields[1]
+    incl = last_seg(r.name) == 'RangeInclusive'
+    lt = (lambda a, b: a < b) if lo.signed else z3.ULT
+    le = (lambda a, b: a <= b) if lo.signed else z3.ULE
+    ex.require(st, le(lo.t, hi.t) if incl else lt(lo.t, hi.t), 'gen_range', 'cannot sample empty range')
+    v = z3.BitVec(fresh_name('random_pick'), lo.bits)
+    ex.assume(st, z3.And(le(lo.t, v), le(v, hi.t) if incl else lt(v, hi.t)))
+    st.env['inputs'] = dict(st.env.get('inputs', {}), random_pick=v)
+    return Int(v, lo.bits, lo.signed)
+
+
 @contract(r'^CHashMap::<.*>::is_empty$|^CHashMap::<.*>::len$')
 def chashmap_len(ctx):
     """how many entries a concurrent map holds is state of the environment (other tasks fill and drain it): any value, the same
@@ -1897,6 +1922,8 @@ def apply_callable(ctx, f, args, dest_ty=None):
         if not want_ref and isinstance(f, Ref):
             first = fv
         return ex.call_sub_states(st, body, [first] + list(args))
+    if isinstance(fv, Opaque) and not isinstance(f, Opaque):
+        f = fv          # a function item held behind a reference
     if isinstance(f, Opaque) and isinstance(f.tag, str) and re.search(r'::[A-Za-z_0-9]+$', f.tag.strip()):
         callee = f.tag.strip()
         c2 = CallCtx(ex, st, ctx.fr, callee, list(args), dest_ty)
@@ -2808,8 +2835,10 @@ def iter_map_collect(ctx):
     tm = re.search(r'::collect::<(.*)>$', ctx.callee, re.S)
     target = tm.group(1).strip() if tm else ''
     into_result = last_seg(generic_args(target)[0]) == 'Result'
-    if not into_result and last_seg(generic_args(target)[0]) != 'Vec':
+    container = last_seg(generic_args(target)[0])
+    if not into_result and container not in ('Vec', 'VecDeque', 'LinkedList'):
         return NotImplemented
+    ckind = {'Vec': 'vec', 'VecDeque': 'vecdeque', 'LinkedList': 'list'}.get(container, 'vec')
     ccell = st.alloc(m.fields[1])
     frontier = [(st, [])]
     done = []
@@ -2839,9 +2868,96 @@ def iter_map_collect(ctx):
                     nxt.append((s2, acc + [payload(ex, s2, r, 0, 0, 'unknown')]))
         frontier = nxt
     for s, acc in frontier:
-        vec = SeqV.from_items(acc, None, 'vec')
+        vec = SeqV.from_items(acc, None, ckind)
         done.append((s, mk_result(ex, ok=vec) if into_result else vec))
     return done
+
+
+@contract(r'^<(?:VecDeque|Vec|LinkedList)<.*> as Extend<.*>>::extend::<std::iter::Map<std::slice::Iter<.*>, .*>>$')
+def seq_extend_from_map(ctx):
+    """v.extend(slice.iter().map(f)): the mapped elements appended in order, with the real closure / function item"""
+    ex, st = ctx.ex, ctx.st
+    v, loc = seq_loc(ex, st, ctx.args[0])
+    m = ctx.args[1]
+    if isinstance(m, Ref):
+        m = ex.load(st, m.cell, m.path)
+    if not (isinstance(v, SeqV) and v.items is not None and isinstance(m, Agg) and m.name == 'iter::Map'):
+        return NotImplemented
+    elems = _explicit_elems(ctx, m.fields[0])
+    if elems is None:
+        return NotImplemented
+    ccell = st.alloc(m.fields[1])
+    frontier = [(st, [])]
+    for e in elems:
+        nxt = []
+        for s, acc in frontier:
+            c2 = type(ctx)(ex, s, ctx.fr, ctx.callee, ctx.args, ctx.dest_ty)
+            rs = apply_callable(c2, Ref(ccell, (), True), [e])
+            if rs is None:
+                return NotImplemented
+            nxt += [(s2, acc + [r]) for s2, r in rs]
+        frontier = nxt
+    outs = []
+    for s, acc in frontier:
+        cur, loc2 = seq_loc(ex, s, ctx.args[0])
+        ex.store(s, loc2[0], loc2[1], SeqV.from_items(cur.items + acc, cur.elem_ty, cur.kind))
+        outs.append((s, UNIT))
+    return outs
+
+
+@contract(r'^HashSet::<.*>::new$|^<HashSet<.*> as Default>::default$|^HashSet::<.*>::with_capacity$')
+def hashset_new(ctx):
+    return SeqV.from_items([], None, 'hashset')
+
+
+@contract(r'^HashSet::<.*>::(insert|contains|remove)(?:::<.*>)?$')
+def hashset_ops(ctx):
+    """a HashSet as an explicit list of distinct values with the values' own equality: insert says whether the value was new"""
+    from contracts import value_eq
+    ex, st = ctx.ex, ctx.st
+    v, loc = seq_loc(ex, st, ctx.args[0])
+    if not (isinstance(v, SeqV) and v.items is not None and v.kind == 'hashset'):
+        return NotImplemented
+    op = re.search(r'::(insert|contains|remove)(?:::<.*>)?$', ctx.callee).group(1)
+    x = ctx.args[1]
+    xs = ex.deref(st, x) if isinstance(x, Ref) else x
+    eqs = []
+    for it in v.items:
+        iv = ex.deref(st, it) if isinstance(it, Ref) else it
+        e = value_eq(ex, st, xs, iv)
+        if e is None:
+            return NotImplemented
+        eqs.append(simp(e))
+    present = simp(z3.Or(eqs)) if eqs else z3.BoolVal(False)
+    if op == 'contains':
+        return Bool(present)
+    t, f = ex.branch(st, present)
+    outs = []
+    if t:
+        s2 = st.fork() if f else st
+        ex.assume(s2, present)
+        if op == 'remove':
+            # the (single) equal element goes; which one it is, is decided by the equalities
+            for k, e in enumerate(eqs):
+                tk, _ = ex.branch(s2, e)
+                if tk:
+                    s3 = s2.fork()
+                    ex.assume(s3, e)
+                    cur, l3 = seq_loc(ex, s3, ctx.args[0])
+                    ex.store(s3, l3[0], l3[1], SeqV.from_items(cur.items[:k] + cur.items[k + 1:], cur.elem_ty, 'hashset'))
+                    outs.append((s3, Bool(True)))
+        else:
+            outs.append((s2, Bool(False)))
+    if f:
+        if t:
+            ex.assume(st, z3.Not(present))
+        if op == 'insert':
+            cur, l2 = seq_loc(ex, st, ctx.args[0])
+            ex.store(st, l2[0], l2[1], SeqV.from_items(cur.items + [x], cur.elem_ty, 'hashset'))
+            outs.append((st, Bool(True)))
+        else:
+            outs.append((st, Bool(False)))
+    return outs
 
 
 @contract(r'^core::num::<impl ([iu](?:8|16|32|64|size))>::rem_euclid$|^core::num::rem_euclid$|^([iu](?:8|16|32|64|size))::rem_euclid$')
